@@ -374,6 +374,10 @@ func (w *c07pWorld) apply(o *c07Op) (vu.Ev, bool) {
 			return nil, false
 		}
 		ev["node"], ev["reqs"], ev["required"] = o.Node, cyc.reqs, cyc.required
+		// as kube-scheduler does it: the pod is assumed on the node first (a copy with spec.nodeName set), and it is that
+		// copy the reserve plugins, Unreserve and PreBind are called with
+		cyc.pod = cyc.pod.DeepCopy()
+		cyc.pod.Spec.NodeName = o.Node
 		st := w.plg.Reserve(ctx, cyc.cs, cyc.pod, o.Node)
 		var result apiext.DeviceAllocations
 		if s, _ := getPreFilterState(cyc.cs); s != nil && st.IsSuccess() {
@@ -400,6 +404,7 @@ func (w *c07pWorld) apply(o *c07Op) (vu.Ev, bool) {
 		}
 		ev["node"] = cyc.node
 		np := cur.DeepCopy()
+		np.Spec.NodeName = cyc.node
 		if st := w.plg.PreBind(ctx, cyc.cs, np, cyc.node); !st.IsSuccess() {
 			panic("c07: PreBind: " + st.Message())
 		}
